@@ -370,7 +370,10 @@ def camp_tree_huff(rnd, tier, kinds=QUAD_HUFF, binary=False):
 
 
 def camp_c01(rnd, tier):
-    return camp_tree_plain(rnd, tier, QUAD_PLAIN)
+    b = camp_tree_plain(rnd, tier, QUAD_PLAIN)
+    # more than 2^27 symbols: more than 65 536 superblocks per level
+    long_quads(b, rnd, [rnd.choice(QUAD_PLAIN)] if tier == "quick" else ["QWT256", "QWT512Pfs"])
+    return b
 
 
 def camp_c02(rnd, tier):
@@ -472,6 +475,8 @@ def camp_c05(rnd, tier):
     for kind in ["RSQ256", "RSQ512"]:
         o = b.newq(kind, "u8", "default", Seqn.from_values([]))
         quad_queries(b, o, Seqn.from_values([]), rnd)
+    # more than 2^27 symbols: more than 65 536 superblocks
+    long_quads(b, rnd, [rnd.choice(["RSQ256", "RSQ512"])] if tier == "quick" else ["RSQ256", "RSQ512", "QV"])
     return b
 
 
@@ -711,6 +716,40 @@ def big_bits(b, rnd, kinds, nobj=1, fills=(0,)):
                     b.ithbig(o, "ones", cnt=4)
                     b.ithbig(o, "zeros", cnt=4)
                 b.drop(o)
+
+
+def long_quads(b, rnd, kinds):
+    """quad structures over more than 2^27 symbols (more than 65 536 superblocks): a leading run of
+    one symbol, then a tail with all four symbols; a stored superblock id or counter narrower than
+    the length shows"""
+    base = (1 << 27) + rnd.choice([0, 1, 255, 4097, 70001])
+    f = rnd.randrange(4)
+    others = [x for x in range(4) if x != f]
+    x, y, z = others
+    tail = Seqn.from_runs([([x, y], 3000), ([z], 1), ([y], 9000), ([x, f, z], 1500), ([x], 8200), ([z, z, y], 700), ([f], 300), ([x], 5)])
+    vals = tail.values()
+    n = len(vals)
+    for kind in kinds:
+        b.reset()
+        o = b.newbigq(kind, base, f, tail)
+        rel = sorted(set([-70000, -2049, -1, 0, 1, 2, 255, 256, 2047, 2048, n // 2, n - 1, n, n + 1] + [rnd.randrange(n) for _ in range(10)]))
+        b.qbigq(o, "get", 0, rel)
+        if kind == "QV":
+            continue
+        tree = kind.startswith("QWT")
+        for sy in (0, 1, 2, 3) if tree else (0, 1, 2, 3, 4):
+            c = sum(1 for v in vals if v == sy)
+            b.qbigq(o, "rank", sy, [r for r in rel if not tree or r <= n])
+            ks = sorted(set([0, 1, 2, 8191, 8192, 8193, c // 2, c - 1, c, c + 1] + [rnd.randrange(max(1, c)) for _ in range(8)]))
+            if sy == f:
+                b.qbigq(o, "select", sy, [k for k in ks if k >= 0] + [base - 1], form="abs")
+                b.qbigq(o, "select", sy, [k for k in ks if k >= 0] + ([] if tree else [-1]), form="rel")
+            else:
+                b.qbigq(o, "select", sy, [k for k in ks if k >= 0], form="abs")
+            if not tree:
+                b.qbigq(o, "occs", sy, [0], form="abs")
+                b.qbigq(o, "occs_smaller", sy, [0], form="abs")
+        b.drop(o)
 
 
 def camp_c07(rnd, tier):
